@@ -15,6 +15,7 @@ BOUNDED_PARTS = {
     "C05": ("objective",),
     "C06": ("grid", "frame"),
     "C09": ("dynamics", "placement", "frame", "objective", "pvals"),
+    "C10": ("init",),
     "C11": ("dynamics", "placement", "frame", "objective", "freetime"),
     "C14": ("dynamics", "placement", "frame", "objective", "scaling"),
 }
